@@ -51,8 +51,11 @@ C02(doc, xk)       == C02_Kinds(doc, xk) /\ C02_Form(doc)
 
 \* ---- L1: contracts of the phases (snapshots recorded after every phase / loop round through the verif hooks) ----------
 \* C01 is an inductive invariant of the pipeline: the operations mean the same after EVERY phase, not only at the end
-PhasesKeepMeaning(b0, phases) == \A i \in DOMAIN phases : C01_Paths(b0, After(b0, phases[i].doc))
-BrokenPhases(b0, phases)      == { i \in DOMAIN phases : ~C01_Paths(b0, After(b0, phases[i].doc)) }
+PhaseOrder == <<"phase.expand", "phase.normalize", "phase.dropShared", "phase.import", "phase.nameInline", "phase.strip", "phase.removeUnused">>
+\* (a snapshot equal to the previous one needs no new evaluation)
+ChangedAt(phases, i) == i = 1 \/ phases[i].doc # phases[i - 1].doc
+BrokenPhases(b0, phases)      == { i \in DOMAIN phases : ChangedAt(phases, i) /\ ~C01_Paths(b0, After(b0, phases[i].doc)) }
+PhasesKeepMeaning(b0, phases) == BrokenPhases(b0, phases) = {}
 \* lemmas of C02: what each phase must have achieved
 NoSharedRefs(doc, xk) == \A h \in RootHolders(doc, xk) : h[2] = "schema"
 NoRemoteRefs(doc)     == \A x \in RefsIn(doc) : x[2][1] = "root"
@@ -61,10 +64,9 @@ PhaseLemma(ph, xk) ==
     [] ph.ev \in {"phase.import", "phase.nameInline"} -> NoSharedRefs(ph.doc, xk) /\ NoRemoteRefs(ph.doc)
     [] ph.ev \in {"phase.strip", "phase.removeUnused"} -> NoSharedRefs(ph.doc, xk) /\ C02_Form(ph.doc)
     [] OTHER -> TRUE
-LemmasHold(phases, xk) == \A i \in DOMAIN phases : PhaseLemma(phases[i], xk)
-BrokenLemmas(phases, xk) == { i \in DOMAIN phases : ~PhaseLemma(phases[i], xk) }
+BrokenLemmas(phases, xk) == { i \in DOMAIN phases : (ChangedAt(phases, i) \/ phases[i].ev \in Range(PhaseOrder)) /\ ~PhaseLemma(phases[i], xk) }
+LemmasHold(phases, xk) == BrokenLemmas(phases, xk) = {}
 \* the phases come in the order of the pipeline and the last snapshot is the returned document
-PhaseOrder == <<"phase.expand", "phase.normalize", "phase.dropShared", "phase.import", "phase.nameInline", "phase.strip", "phase.removeUnused">>
 MainPhases(phases) == SelectSeq([i \in DOMAIN phases |-> phases[i].ev], LAMBDA e : e \in Range(PhaseOrder))
 PipelineShape(phases, doc, ok) ==
   ok => /\ MainPhases(phases) = PhaseOrder
